@@ -5,7 +5,9 @@
 package simhook
 
 import (
+	"context"
 	"io"
+	"net"
 	"sync/atomic"
 )
 
@@ -95,3 +97,25 @@ type ExitPanic struct{ Code int }
 
 // CrashPanic is the sentinel raised at an injected crash point.
 type CrashPanic struct{ At int }
+
+// DialFunc is how the simulated network hands out connections.
+type DialFunc func(ctx context.Context, network, address string) (net.Conn, error)
+
+var dialHook atomic.Pointer[DialFunc]
+
+// SetNetDial installs (nil: removes) the simulated dialer used by simnet.
+func SetNetDial(f DialFunc) {
+	if f == nil {
+		dialHook.Store(nil)
+		return
+	}
+	dialHook.Store(&f)
+}
+
+// NetDial returns the simulated dialer or nil.
+func NetDial() DialFunc {
+	if p := dialHook.Load(); p != nil {
+		return *p
+	}
+	return nil
+}
